@@ -56,10 +56,11 @@ def r06a(ctx, run):
     c23.r23a(ctx, sub)
     c23.r23b(ctx, sub)
     c23.r23f(ctx, sub)
+    c23.r23g(ctx, sub)
     run.instances.extend(sub.instances)
     for f in sub.findings:
         f = dict(f)
-        f["key"] = f["key"].replace("C23/R23.a", "C06/R06.a").replace("C23/R23.b", "C06/R06.a").replace("C23/R23.f", "C06/R06.a")
+        f["key"] = f["key"].replace("C23/R23.a", "C06/R06.a").replace("C23/R23.b", "C06/R06.a").replace("C23/R23.f", "C06/R06.a").replace("C23/R23.g", "C06/R06.a")
         f["property"], f["rule"] = "C06", "R06.a"
         run.findings.append(f)
 
@@ -535,7 +536,7 @@ def r06f(ctx, run):
 
 def rules(ctx):
     return [
-        Rule("R06.a", "the parser cannot loop without consuming input, has no left recursion, and never bumps a trivia token (C23 R23.a/b/f)", 40, r06a),
+        Rule("R06.a", "the parser cannot loop without consuming input, has no left recursion, never bumps a trivia token, and none of its explicit assertions can fail (C23 R23.a/b/f/g)", 40, r06a),
         Rule("R06.b", "every todo!()/unimplemented!() reachable from main is triaged; new reachable sites are violations", 3, r06b),
         Rule("R06.d", "const evaluation sites that panic without a value only see kinds const_data can evaluate (classifier vs evaluator, belief/use)", 3, r06d),
         Rule("R06.e", "the renderer's inclusive end position never precedes the start (empty ranges)", 2, r06e),
